@@ -268,6 +268,13 @@ func (d *dt1) builtFromQueueHead(f *ssa.Function, rv ssa.Value, sortCalls []ssa.
 		if isNilConst(e) || e == ssa.Value(ph) {
 			continue
 		}
+		if ms, isMake := e.(*ssa.MakeSlice); isMake {
+			// preallocated, still empty: make([]T, 0, n)
+			if l, ok := constInt(ms.Len); ok && l == 0 {
+				continue
+			}
+			return false
+		}
 		ap, ok := e.(*ssa.Call)
 		if !ok || calleeFullName(&ap.Call) != "builtin append" {
 			return false
